@@ -188,6 +188,9 @@ func (it *Interp) copySlots(dst *Obj, doff int, src *Obj, soff int, n int) {
 	if n == 0 {
 		return
 	}
+	if it.race != nil {
+		it.raceMem(src, soff, n, false)
+	}
 	if dst == src && doff > soff {
 		for i := n - 1; i >= 0; i-- {
 			it.setSlot(dst, doff+i, src.Slots[soff+i])
@@ -223,6 +226,14 @@ func (it *Interp) appendOp(s SliceV, t Value, st types.Type) Value {
 	}
 	need := s.Len + n
 	res := s
+	if it.race != nil {
+		if srcObj != nil {
+			it.raceMem(srcObj, srcOff, n*es, false)
+		}
+		if need > s.Cap && s.Obj != nil {
+			it.raceMem(s.Obj, s.Off, s.Len*es, false)
+		}
+	}
 	if need > s.Cap {
 		nc := it.growCap(s.Cap, need, es)
 		o := it.newObj(nc*es, "append")
